@@ -18,8 +18,8 @@ import (
 
 var c15pwAlpha = []string{"z", "q", " ", "'", `"`, `\`, "=", ";", "\t", "\n"}
 var c15users = []string{"u0", "my user", "a=b", "with password", "select", `x"y`, "for", "é"}
-var c15must = []string{" ", "  ", "\t", "\n", "\r\n", " /*c*/ ", " --c\n", "/**/"}
-var c15may = []string{" ", "", "  ", "\n", " /*c*/ ", "--c\n"}
+var c15must = []string{" ", "  ", "\t", "\n", "\r\n", " /*c*/ ", " --c\n", "/**/", " /*/ c */ ", "/* 'q' \"z\" */"}
+var c15may = []string{" ", "", "  ", "\n", " /*c*/ ", "--c\n", "/*/ c */", " /* ' */ "}
 
 type c15tok struct {
 	text string
